@@ -130,6 +130,7 @@ PROPS["C15"] = {
     "assumptions": ["legality of a history is decided by the scene model in harness/c15_router.cpp from the documented preconditions only", "uninitialised reads are caught where they reach a sanitizer check (bool/enum loads, pattern-filled locals) or a library assertion; there is no MemorySanitizer pass", "parts that hit their deadline report exhaustive:false"],
     "parts": [
         SAN("router_histories", "c15_router.cpp", [], 60, 900),
+        SAN("cola_api", "c15_cola_api.cpp", [], 60, 900),
         SAN("vpsc", "c01_vpsc.cpp", ["--prop", "C01"], 12, 300, 10),
         SAN("routing", "c03_routing.cpp", ["--prop", "C03"], 15, 300),
         SAN("incremental", "c06_incremental.cpp", [], 12, 300),
